@@ -497,6 +497,7 @@ let sqlhist () : unit =
   let now () = Z.add sql_now (z_of_small !tick) in
   let stmt_t i = match (getc i).sc_conn.c_wt with Some t -> t | None -> now () in
   let last_sel = ref (-1) in
+  let last_sel_events : ev list ref = ref [] in
   let nops = rd_int () in
   let skip_next = ref 0 in
   for _ = 1 to nops do
@@ -585,7 +586,11 @@ let sqlhist () : unit =
         let i = rd_int () in cur := i; let desc = rd_bool () in
         let cons = rd_list (fun () -> let o = rd_cop () in let v = rd_sval () in (o, v)) in
         let limit = rd_int () in
-        if cons = [] && limit = 0 && not desc then last_sel := !opno;
+        if cons = [] && limit = 0 && not desc then begin
+          last_sel := !opno;
+          (* what this connection sees: the accepted statements plus its own pending ones *)
+          last_sel_events := !accepted @ get_pending i
+        end;
         pr (if desc then "SD" else "SA");
         (match sql_select (getc i) desc cons (nat_of_int limit) with
          | None -> pr "panic"
@@ -696,10 +701,10 @@ let sqlhist () : unit =
       | e :: rest ->
           Stdlib.List.for_all (fun e2 ->
             not (order_t e.e_key e2.e_key = Eq && e.e_t = e2.e_t) || e = e2) rest && chk rest in
-    chk !accepted in
+    chk !last_sel_events in
   if !last_sel > !last_write && distinct then begin
     pr "|";
-    let rows = interp (nat_of_int ncols) !accepted in
+    let rows = interp (nat_of_int ncols) !last_sel_events in
     let b2 = Buffer.create 256 in
     Buffer.add_string b2 (string_of_int !last_sel ^ ":SA,ok," ^ string_of_int (Stdlib.List.length rows));
     let save = Buffer.contents out in
